@@ -28,6 +28,18 @@ Theorem C08_deme_permutation_equivariant_bounded :
 Proof. exact deme_permutation_equivariant_bounded. Qed.
 Print Assumptions C08_deme_permutation_equivariant_bounded.
 
+(* ---- the SOURCE of LineageConfig.__init__ (translated on every run by translate/configs2coq.py into gen/ConfigsGen.v): the counts are
+   kept in the order in which the populations were GIVEN (dictionary insertion order / position), with the names given or pop_i ---- *)
+From PG Require Import gen.NpConfigs gen.ConfigsGen proofs.GenConfigsEquiv.
+Theorem C08_lineage_py_dictionary_keeps_the_given_order : forall d,
+  LineageConfig_init (NDict d) = (map snd d, fold_right Z.add 0%Z (map snd d), length d, map fst d).
+Proof. exact gen_lineage_init_dict. Qed.
+Theorem C08_lineage_py_iterable_names_by_position : forall l,
+  LineageConfig_init (NIter l) = (l, fold_right Z.add 0%Z l, length l, map pop_name (seq 0 (length l))).
+Proof. exact gen_lineage_init_iterable. Qed.
+Print Assumptions C08_lineage_py_dictionary_keeps_the_given_order.
+Print Assumptions C08_lineage_py_iterable_names_by_position.
+
 From mathcomp Require Import all_ssreflect all_algebra fingroup perm.
 From PG Require Import proofs.ExpLaws.
 Set Implicit Arguments. Unset Strict Implicit. Unset Printing Implicit Defensive.
